@@ -108,7 +108,7 @@ BUILTIN = {
     ("function", "none", "none"): ("sys", "addaudithook"),
     ("attribute",): ("errno", "EPERM"),
 }
-CASE_KEYS = ["guard", "dfield", "part", "origin", "kind", "host", "mname", "doc", "cwdrel", "bases", "deco", "pann", "pdef", "pdoc", "ret", "val", "ann",
+CASE_KEYS = ["dtext", "guard", "dfield", "part", "origin", "kind", "host", "mname", "doc", "cwdrel", "bases", "deco", "pann", "pdef", "pdoc", "ret", "val", "ann",
              "where", "alno", "resolved", "slot", "spine", "leaf", "section"]
 
 
@@ -140,10 +140,26 @@ def doc_text(case: dict) -> str | None:
         return None
     if case["doc"] == "google":
         return "Summary.\n\n" + GOOGLE[case["section"]]
+    if case.get("dtext", "na") not in ("na", "single"):
+        return ("shape", case["dtext"])       # rendered by _docline relative to the indentation of its owner
     return "Doc."
 
 
-def _docline(text: str | None, ind: str) -> list:
+# source text shapes of Serde!DocTexts: the lines between the triple quotes, {i} = indentation of the owner's body
+DOC_SHAPES = {
+    "flush": ["Doc.", "{i}More.", "{i}"],
+    "deepfirst": ["", "{i}    Indented", "{i}Less", "{i}"],        # blank first line, first content line indented deeper
+    "trailing": ["Doc.", "", "{i}More.", "", "", "{i}"],
+    "tabs": ["Doc.", "{i}\tTabbed.", "{i}"],
+}
+LAST_RAW: dict = {"text": None}
+
+
+def _docline(text, ind: str) -> list:
+    if isinstance(text, tuple):
+        body = [ln.replace("{i}", ind) for ln in DOC_SHAPES[text[1]]]
+        LAST_RAW["text"] = "\n".join(body)          # the value of the string constant, as CPython sees it
+        return [f'{ind}"""{body[0]}'] + body[1:-1] + [body[-1] + '"""']
     if text is None:
         return []
     body = text.rstrip("\n").split("\n")
@@ -305,6 +321,12 @@ def alpha(v, key=None):
             and v["endlineno"] > v["lineno"]:
         # Serde!JIntAfter: the end line of a multi-line import
         return {"t": "object", "f": {k: ({"t": "integer", "v": "after"} if k == "endlineno" else alpha(x, k)) for k, x in v.items()}}
+    if key == "docstring" and isinstance(v, dict) and isinstance(v.get("value"), str):
+        # Serde: the value of a docstring is tracked as "is it a fixpoint of inspect.cleandoc"
+        import inspect  # noqa: PLC0415
+
+        tok = "fix" if inspect.cleandoc(v["value"]) == v["value"] else "again"
+        return {"t": "object", "f": {k: ({"t": "string", "v": tok} if k == "value" else alpha(x, k)) for k, x in v.items()}}
     if isinstance(v, list):
         if key == "parsed":
             items = []
@@ -568,7 +590,9 @@ def evaluate(case: dict, idx: int, base: str, schema: dict | None = None, want_c
     cwd0 = os.getcwd()
     work = os.path.join(base, f"c{idx}")
     try:
+        LAST_RAW["text"] = None
         lay = layout(case, idx, lean=want_c09 and not want_c08)
+        raw_doc = LAST_RAW["text"]
         res["layout"] = {"files": lay["files"], "pkg": lay["pkg"], "names": lay["real_names"], "opts": lay["opts"]}
         os.makedirs(work, exist_ok=True)
         for rel, text in lay["files"].items():
@@ -591,6 +615,15 @@ def evaluate(case: dict, idx: int, base: str, schema: dict | None = None, want_c
             res["alias_resolved"] = bool(focus.is_alias and focus.resolved)
         res["kinds"] = [("alias" if o.is_alias else o.kind.value) for o in objs]
         res["runtime"] = None if focus.is_alias else bool(focus.runtime)
+        if raw_doc is not None:
+            # CPython's inspect.cleandoc is the reference of what the loaded value must be, and of whether cleaning it
+            # again would change it (Serde!CleanedOnce)
+            import inspect  # noqa: PLC0415
+
+            want = inspect.cleandoc(raw_doc.rstrip())
+            res["docref"] = {"loaded_ok": focus.docstring is not None and focus.docstring.value == want,
+                             "fixpoint": inspect.cleandoc(want) == want, "want": want,
+                             "got": None if focus.docstring is None else focus.docstring.value}
 
         # ---- as_json in both forms -------------------------------------------------------------------
         enc = {}
@@ -615,6 +648,13 @@ def evaluate(case: dict, idx: int, base: str, schema: dict | None = None, want_c
                 except Exception as exc:  # noqa: BLE001
                     dec = dict(exc_sig(exc), ok=False)
             res["dec"] = dec
+            if enc["full"]["ok"]:
+                # loading the FULL form back (Serde: obs.decfull_ok)
+                try:
+                    type(root).from_json(texts["full"])
+                    res["decfull"] = {"ok": True}
+                except Exception as exc:  # noqa: BLE001
+                    res["decfull"] = dict(exc_sig(exc), ok=False)
             if dec["ok"]:
                 try:
                     robjs = _chain(reloaded, lay["real_names"])
